@@ -19,10 +19,12 @@ def main():
             reasons = json.load(fh)
     except FileNotFoundError:
         pass
+    with open(os.path.join(VERIF, "claimed.json")) as fh:
+        claimed = set(json.load(fh))
     for pid in ALL:
         path = os.path.join(VERIF, "harness", "props", pid.lower() + ".py")
         props = os.path.join(VERIF, "coq", "Props", pid + ".v")
-        ready = os.path.exists(path) and os.path.exists(props)
+        ready = pid in claimed and os.path.exists(path) and os.path.exists(props)
         mod = None
         if ready:
             try:
